@@ -7,6 +7,7 @@ package harness
 
 import (
 	"fmt"
+	"math/big"
 	"strings"
 	"sync"
 	"testing"
@@ -21,7 +22,7 @@ var c02Tampers = []string{
 	"signed-by-other-key", "payload-changed-not-resigned", "key-missing-member", "jws-two-segments", "jws-bad-base64",
 	"payload-not-json", "missing-signed-data", "missing-reveal", "reveal-respelled", "reveal-shortened", "header-duplicate-member", "reveal-edited", "header-not-object", "alg-not-string",
 	// C02-specific
-	"field-reencoded-not-resigned", "key-substituted-not-resigned", "key-substituted-resigned-reveal-kept", "key-substituted-resigned-reveal-shortened", "alg-other-allowed-not-resigned",
+	"field-reencoded-not-resigned", "key-substituted-not-resigned", "key-substituted-resigned-reveal-kept", "key-substituted-resigned-reveal-shortened", "key-mirrored-signed-by-original", "delta-protocol-invalid", "alg-other-allowed-not-resigned",
 	"header-kid-added-not-resigned", "signature-truncated", "signature-padded", "signature-empty", "segment-base64-padded", "four-segments",
 	"signature-of-other-request", "delta-substituted", "suffix-signed-mismatch",
 }
@@ -93,6 +94,29 @@ func c02Tamper(t *rapid.T, b *opBuild, class string, p protocol.Protocol, donor 
 		resignWithKey(b, o)
 		d := refDigest(b.Alg, []byte(refJCS(o.JWKValue())))
 		b.Req["revealValue"] = b64(refMultihashBytes(b.Alg, d[:rapid.SampledFrom([]int{0, 0, 1, 16, len(d) - 1}).Draw(t, "shortLen")]))
+	case "key-mirrored-signed-by-original":
+		// the key in the signed data replaced by its mirror image (x, p-y) - another key with the same x - together with that
+		// key's reveal value; signed (consistently, over the new payload) by the original key
+		if b.SignKey.Type == ktEd25519 {
+			return nil, false
+		}
+		mirrored := *b.SignKey
+		ec := *b.SignKey.EC
+		ec.PublicKey.Y = new(big.Int).Sub(b.SignKey.curve().Params().P, b.SignKey.EC.Y)
+		ec.D = new(big.Int).Sub(b.SignKey.curve().Params().N, b.SignKey.EC.D)
+		mirrored.EC = &ec
+		mirrored.Name = b.SignKey.Name + "-mirrored"
+		b.Signed[keyMember(b.Type)] = mirrored.JWKValue()
+		b.sign() // by the original key, over the payload that names the mirrored one
+		b.Reveal = mirrored.Reveal(b.Alg)
+		b.assemble()
+	case "delta-protocol-invalid":
+		// the delta is the signed one (hash-bound) but not valid under the protocol: an update is refused, a recover is
+		// applied without its delta
+		if b.Delta == nil {
+			return nil, false
+		}
+		applyDeltaProblem(t, b, rapid.SampledFrom([]string{"delta-invalid-patch", "delta-unknown-action", "delta-empty-patches"}).Draw(t, "deltaProblem"), p)
 	case "alg-other-allowed-not-resigned":
 		h, pl, s, _ := splitCompact(b.JWS)
 		_ = h
@@ -224,7 +248,7 @@ func TestC02_Tampering(t *testing.T) {
 		}
 		res, aerr := stack.Applier.Apply(anchoredBytes(typ, bad, suffix, m), lib0)
 		desc := fmt.Sprintf("%s / %s\n tampered=%s\n valid=   %s", typ, class, clip(string(bad), 2500), clip(string(valid), 2500))
-		deltaOnly := class == "delta-substituted"
+		deltaOnly := class == "delta-substituted" || class == "delta-protocol-invalid"
 		switch {
 		case deltaOnly && typ == "recover":
 			// signature valid, delta not bound: degraded state with the *signed* recovery commitment, empty document
@@ -256,7 +280,8 @@ func TestC02_Tampering(t *testing.T) {
 		if _, perr := stack.Parser.Parse("did:sidetree", bad); perr == nil {
 			switch class {
 			case "bad-signature", "signed-by-other-key", "payload-changed-not-resigned", "field-reencoded-not-resigned", "key-substituted-not-resigned",
-				"alg-other-allowed-not-resigned", "header-kid-added-not-resigned", "signature-truncated", "signature-padded", "signature-of-other-request":
+				"alg-other-allowed-not-resigned", "header-kid-added-not-resigned", "signature-truncated", "signature-padded", "signature-of-other-request",
+				"key-mirrored-signed-by-original":
 				// signature verification is the applier's step: the parser may accept these
 			case "delta-substituted":
 				// delta/hash binding of update and recover is the applier's step as well
